@@ -4,6 +4,8 @@ package main
 
 import (
 	"fmt"
+	"go/constant"
+	"go/types"
 	"os"
 	"strings"
 
@@ -512,12 +514,14 @@ func startsWithALPH(assume map[string]bool, path string) bool {
 const muxFrameDomainDoc = "frame data that starts with 'ALPH' but is shorter than 12 bytes, or whose ALPH header declares more bytes than the data holds, contains no bitstream (frames are VP8/VP8L bitstreams with an optional well-formed ALPH prefix)"
 
 func runC14(c *Ctx) {
+	c.Rule("X1 any-scan shape: a boolean muxer function that returns true from inside a loop over the frames and false after it returns nothing but true inside the loop")
 	c.Rule("R3 walk-to-end: a chunk walk of the demuxer never returns successfully from inside the loop")
 	c.Rule("R1/R2 (S7 loop facts): every chunk-walking loop of mux.Demuxer and container.Parser (a loop that reads a FourCC at its cursor and a 32-bit size S four bytes further) advances its cursor by 8 + S + (S odd ? 1 : 0) in every input class, except where the walker itself found that the pad byte lies beyond the data; every slice taken at cursor+8 with a variable length has length exactly S")
 	c.Rule("W-layout (S7): each container writer is executed symbolically for every class of inputs (presence and parity of every blob, frame payload shapes, still/animated) - the output is obtained as a sequence of pieces with symbolic lengths; W1: the RIFF size field equals the bytes that follow; W2: the pieces parse as complete chunks (declared size = payload written, pad byte iff odd, ANMF = 16-byte header + complete sub-chunks); W3: chunk order, VP8X flags vs chunks written, metadata payloads are whole caller blobs")
 	c.NotCovered("what the demuxer/parser read back (see R rules), values of offsets/durations/dimensions inside headers, rejection of invalid muxer states (validate is not followed), per-frame conditions are explored with all frames in the same class")
 	max := 300000
-	for _, cf := range c.configsFor() {
+	// the container writers and parsers are portable Go without build tags: one configuration suffices
+	for _, cf := range c.configsFor()[:1] {
 		p := c.load(cf[0], cf[1])
 		if p == nil {
 			continue
@@ -533,6 +537,7 @@ func runC14(c *Ctx) {
 			f := p.Pos(fn.Pos())
 			return strings.HasPrefix(f, "mux/demux.go") || strings.HasPrefix(f, "mux/chunk.go") || strings.HasPrefix(f, "internal/container/")
 		}
+		anyScanShape(c, p)
 		before := c.Count("R1-advance")
 		checkReaders(c, p, "mux", readerFile, max)
 		checkReaders(c, p, "internal/container", readerFile, max)
@@ -542,3 +547,78 @@ func runC14(c *Ctx) {
 
 // bitstream header parsers: their results are numbers that do not affect how the container is walked
 var headerObservers = []string{"parseVP8Header", "parseVP8LHeader", "parseVP8Dimensions", "parseVP8LDimensions", "frameDataHasAlpha", "copyBytes"}
+
+// X1 any-scan shape: a boolean function of the muxer that scans the frames, returns the constant
+// true from inside the loop and the constant false after it is an "exists a frame with ..." scan.
+// Every return inside such a loop must be the constant true: returning anything else there ends
+// the scan at the first frame that reaches that statement, so a later frame is never looked at
+// (the VP8X flags then describe only a prefix of the frames).
+func anyScanShape(c *Ctx, p *Program) {
+	pk := p.SSAPkg("mux")
+	if pk == nil {
+		c.AnchorMissing("X1-any-scan", "package mux")
+		return
+	}
+	n := 0
+	for _, fn := range p.SrcFuncs() {
+		if fn.Pkg != pk || fn.Blocks == nil || fn.Signature.Results().Len() != 1 {
+			continue
+		}
+		if bt, ok := fn.Signature.Results().At(0).Type().Underlying().(*types.Basic); !ok || bt.Kind() != types.Bool {
+			continue
+		}
+		var loops []*loopInfo
+		for _, b := range fn.Blocks {
+			if li := loopOf(b); li != nil {
+				loops = append(loops, li)
+			}
+		}
+		if len(loops) == 0 {
+			continue
+		}
+		inLoopTrue, afterFalse := false, false
+		type retSite struct {
+			ret    *ssa.Return
+			inLoop bool
+		}
+		var sites []retSite
+		for _, b := range fn.Blocks {
+			ret, ok := b.Instrs[len(b.Instrs)-1].(*ssa.Return)
+			if !ok {
+				continue
+			}
+			in := false
+			for _, li := range loops {
+				if returnsFromInside(li, b) {
+					in = true
+				}
+			}
+			sites = append(sites, retSite{ret, in})
+			if k, ok := ret.Results[0].(*ssa.Const); ok && k.Value != nil {
+				if constant.BoolVal(k.Value) && in {
+					inLoopTrue = true
+				}
+				if !constant.BoolVal(k.Value) && !in {
+					afterFalse = true
+				}
+			}
+		}
+		if !inLoopTrue || !afterFalse {
+			continue
+		}
+		n++
+		bad := ""
+		for _, s := range sites {
+			if !s.inLoop {
+				continue
+			}
+			if k, ok := s.ret.Results[0].(*ssa.Const); !ok || k.Value == nil || !constant.BoolVal(k.Value) {
+				bad = p.Pos(s.ret.Pos())
+			}
+		}
+		c.Func(FnName(fn))
+		c.Check(bad == "", "X1-any-scan", FnName(fn), p.Pos(fn.Pos()), "every return inside the scan is 'true'",
+			fmt.Sprintf("%s scans the frames for one with a property (it returns true from inside the loop and false after it), but the return at %s inside the loop can return something else: the scan stops at the first frame that reaches it and later frames are never examined", fn.Name(), bad))
+	}
+	c.Floor("X1-any-scan", n, 2)
+}
